@@ -21,7 +21,7 @@ LEVEL_NOTE = ("G = 3 virtual s on the in-memory lane, 30 s on the kernel lane (e
               "timer, so timing is distorted; outcomes are not); kernel lane uses AF_UNIX stream pairs, RST there is close-with-unread-data")
 ASSUMPTIONS = ["abort is modelled as immediate RST that discards bytes in flight"]
 
-SCRIPTS = [("half-c", 3), ("half-s", 3), ("simul", 2), ("rst-c", 2), ("rst-s", 2), ("rst-c-hold", 2), ("rst-s-hold", 2), ("backpressure", 1)]
+SCRIPTS = [("half-c", 3), ("half-s", 3), ("simul", 2), ("rst-c", 2), ("rst-s", 2), ("rst-c-hold", 2), ("rst-s-hold", 2), ("backpressure", 1), ("bp-rst", 1)]
 
 
 def wchoice(rng, items):
@@ -57,6 +57,8 @@ def gen(rng, tier, i):
     sc.cfg["ioParams"] = {"bufferSize": bufsz, "useSplice": mode == "ksplice"}
     sc.cfg["timeouts"] = {"idle": 600}
     script = wchoice(rng, SCRIPTS)
+    if mode != "mem" and script == "bp-rst":
+        script = "backpressure"
     if mode != "mem" and script in ("rst-c", "rst-s"):
         # on the kernel lane (AF_UNIX pairs) an abort is a close with unread data in the receive queue: only the
         # -hold variants arrange for that
@@ -104,6 +106,14 @@ def gen(rng, tier, i):
         sv = [op("wait", flag="ready", timeout_ms=big), op("send", fill=[S2, d]), op("recv_eof", timeout_ms=big, label="end", keep=0, on_fail="continue"), op("sleep", ms=hold),
               op("send", hex="00", on_fail="continue", label="probe1"), op("sleep", ms=1000), op("send", hex="00", on_fail="continue", label="probe2"), op("close")]
         cl, og = (ab, sv) if script == "rst-c-hold" else (sv, ab)
+        sc.api_call("live", "GET", "/api/live", start_flag="aborted")
+        sc.actors[-1]["ops"].insert(0, op("sleep", ms=Gus // 1000 + 2000))
+    elif script == "bp-rst":
+        # the origin never reads; the client writes until it is blocked, then aborts. The proxy is then in the middle of a write
+        # it cannot finish - and still has to notice the abort and close both sockets, not hold them until the idle timeout
+        a = max(a, 3000000)
+        cl = [op("send", fill=[S1, a], timeout_ms=20000, on_fail="continue", label="blocked"), op("reset", label="rst"), op("set", flag="aborted")]
+        og = [op("sleep", ms=20000 + Gus // 1000 + 6000), op("close")]
         sc.api_call("live", "GET", "/api/live", start_flag="aborted")
         sc.actors[-1]["ops"].insert(0, op("sleep", ms=Gus // 1000 + 2000))
     else:  # backpressure: origin never reads; client writes a lot then closes; origin then closes
@@ -212,6 +222,18 @@ def oracle(plan, out):
                 v("abort-not-relayed", "%s aborted at %.3fs but %s never saw its connection end (%s)" % (aborter, rst["t1"] / 1e6, other, end["res"]))
             elif end["t1"] > max(rst["t1"], end["t0"]) + Gus:
                 v("abort-late", "%s aborted at %.3fs; %s saw the end only at %.3fs" % (aborter, rst["t1"] / 1e6, other, end["t1"] / 1e6))
+    elif sc == "bp-rst":
+        rst = lab("c", "rst")
+        blocked = lab("c", "blocked")
+        lv = R.history("live")
+        if rst is not None and blocked is not None and blocked["res"].startswith("timeout") and lv and lv[0] == 200:
+            try:
+                still = [h.get("id") for h in json.loads(lv[2]) if h.get("listener", "").startswith("l-")]
+            except ValueError:
+                still = []
+            if still:
+                v("live-after-abort", "the client aborted at %.3fs while the proxy was blocked writing to an origin that does not read; %.0fs later the connection is still listed by /api/live (both sockets held)" % (
+                    rst["t1"] / 1e6, Gus / 1e6 + 2))
     else:
         cc = lab("c", "cclose")
         end = lab(oid, "end")
